@@ -6,7 +6,8 @@
 // xpoa CheckMinerMatch with chained-BFT enabled; every list is judged by a
 // history-free instance and by long-lived instances that were first shown
 // honest traffic (hist.go): what an instance verified before must not change
-// its verdict on a certificate.
+// its verdict on a certificate. change.go adds the chains on which the
+// validator set CHANGES between the certified view and the carrying block.
 package c14
 
 import (
@@ -17,6 +18,7 @@ import (
 	"sort"
 	"strings"
 	"sync"
+	"syscall"
 	"time"
 
 	bft "github.com/xuperchain/xupercore/kernel/consensus/base/driver/chained-bft"
@@ -42,6 +44,11 @@ type Case struct {
 	Earlier      [][]string `json:"earlier,omitempty"`       // then these certificates, each EarlierTimes times
 	EarlierTimes int        `json:"earlier_times,omitempty"` // (the history-free instance is shown every list twice)
 	Times        int        `json:"times,omitempty"`         // the list is presented Times times, the last verdict is judged
+	// validator-set change dimension (change.go); Old empty: the fixed set V1..Vn
+	Old         []string `json:"old_set,omitempty"`               // validator set before the change, schedule order
+	New         []string `json:"new_set,omitempty"`               // validator set after the change
+	Effective   string   `json:"new_set_in_force_from,omitempty"` // carrying_view-1 | carrying_view | carrying_view+1
+	ClaimedView string   `json:"claimed_view,omitempty"`          // view the certificate claims for the certified id: "" (true) | true_view+1 | true_view-1 | true_view+2
 }
 
 func (c Case) hasPast() bool { return len(c.History) > 0 || len(c.Earlier) > 0 || c.Times > 1 }
@@ -389,6 +396,9 @@ type best struct {
 }
 
 func less(a, b Case) bool {
+	if len(a.Old) > 0 && len(b.Old) > 0 {
+		return lessChange(a, b)
+	}
 	if ca, cb := exotic(a), exotic(b); ca != cb {
 		return ca < cb
 	}
@@ -480,14 +490,21 @@ func run(tier core.Tier) *core.Report {
 	// bcs: tdpos / xpoa
 	// reencAllN: validator sets whose repeats are spelled once per re-encoding (above: once, rotating)
 	// (above, up to reencOnceN: once, with rotating re-encodings; above that: identical and fresh copies only)
+	// chgMaxSet / chgMaxSigners / chgMaxLieSigners: validator-set change dimension (change.go): sizes of the old
+	// and the new set, size of the signer multisets under the true / under another claimed view
 	maxN, capSize, histSingleN, reencAllN, reencOnceN, maxNBcs, reencAllNBcs := 7, 6, 4, 3, 5, 4, 3
+	chgMaxSet, chgMaxSigners, chgMaxLieSigners := 4, 4, 3
 	if tier == core.Thorough {
 		maxN, capSize, histSingleN, reencAllN, reencOnceN, maxNBcs, reencAllNBcs = 10, 8, 6, 5, 7, 5, 4
+		chgMaxSet, chgMaxSigners, chgMaxLieSigners = 5, 5, 4
 	}
 	t0 := time.Now()
 	phase := func(name string) {
 		if os.Getenv("C14_TIMING") != "" {
-			fmt.Fprintf(os.Stderr, "C14 phase %s done at %.1fs\n", name, time.Since(t0).Seconds())
+			var ru syscall.Rusage
+			_ = syscall.Getrusage(syscall.RUSAGE_SELF, &ru)
+			fmt.Fprintf(os.Stderr, "C14 phase %s done at %.1fs (cpu %.1fs)\n", name, time.Since(t0).Seconds(),
+				float64(ru.Utime.Sec+ru.Stime.Sec)+float64(ru.Utime.Usec+ru.Stime.Usec)/1e6)
 		}
 	}
 	renc, rencRefused := reencodings()
@@ -936,6 +953,33 @@ func run(tier core.Tier) *core.Report {
 	rep.Set("bcs_verdict_differs_from_history_free_instance", bsum.differs)
 	rep.Set("bcs_below_quorum_acceptances_on_long_lived_instances", map[string]int{"seen": bsum.below, "rerun_on_fresh_instances_and_needing_a_past": bsum.suspected + bsum.unconfirmed, "not_reproduced": bsum.unconfirmed})
 
+	// --- tdpos / xpoa CheckMinerMatch across a change of the validator set --------
+	chg := runSetChange(rep, chgMaxSet, chgMaxSigners, chgMaxLieSigners, bst)
+	phase("set_change")
+	if chg.expired {
+		complete = false
+	}
+	for k, v := range chg.violations {
+		cnt.violations[k] += v
+	}
+	rep.Set("setchange_scenarios", chg.scenarios)
+	rep.Set("setchange_scenarios_per_consensus_relation_and_view_the_new_set_is_in_force_from", chg.perRel)
+	rep.Set("setchange_schedule_probes_agreeing_with_the_model", chg.probes)
+	rep.Set("setchange_cases", chg.evals)
+	rep.Set("setchange_accepted", chg.accepted)
+	rep.Set("setchange_accepted_per_consensus_relation_and_view", chg.accPerRel)
+	rep.Set("setchange_rejected", chg.refused)
+	rep.Set("setchange_rejected_although_quorum_of_the_certified_views_set", chg.refusedWithQuorum)
+	rep.Set("setchange_full_certificates_of_the_certified_views_set_rejected", chg.honestRefused)
+	rep.Set("setchange_cases_whose_verdict_depends_on_the_set_chosen", chg.dependsOnSet)
+	rep.Set("setchange_cases_with_another_claimed_view", chg.lieEvals)
+	rep.Set("setchange_accepted_with_another_claimed_view", chg.lieAccepted)
+	rep.Set("setchange_verdict_differs_with_another_claimed_view", chg.lieVerdictDiffers)
+	rep.Set("setchange_verdict_differs_from_fixed_set_instance", map[string]int{"compared": chg.refEvals, "differs": chg.refDiffers})
+	if !chg.expired && (chg.dependsOnSet["quorum_of_the_carrying_views_set_only"] == 0 || chg.dependsOnSet["quorum_of_the_certified_views_set_only"] == 0 || chg.accepted == 0 || chg.refused == 0) {
+		core.HarnessError("C14: the validator-set change dimension is vacuous: %+v", chg.dependsOnSet)
+	}
+
 	// --- report ---------------------------------------------------------------
 	keys := make([]string, 0, len(bst.m))
 	for k := range bst.m {
@@ -953,15 +997,21 @@ func run(tier core.Tier) *core.Report {
 	}
 	histEvals := hst.evals + hst.again + vst.evals + vst.again + bsum.primedEvals
 	rep.Set("violating_cases_per_seam_and_key", cnt.violations)
-	rep.Set("evaluations", thr+cnt.evals+voteEvals+bcsEvals+histEvals)
+	rep.Set("evaluations", thr+cnt.evals+voteEvals+bcsEvals+histEvals+chg.evals+chg.lieEvals)
 	rep.Set("evaluations_on_instances_with_a_past", histEvals)
 	rep.Set("distinct_nontrivial", cnt.nontrivial)
-	rep.Set("rule", "cases = every multiset of signature entries of size <= min(n+1, cap) over the kinds {valid member Vi (i=2..n), collector V1, non-member X, member over another id, corrupted, empty, member address with another member's key, member address with X's key}, each in canonical and reversed order; the further copies of a repeated member in every spelling: identical copies, fresh signatures of the same member (the signer is randomised), and each re-encoding the crypto client accepts (public-key JSON respelled: white space, member order, member-name case, extra member, trailing newline, escaped string, duplicated member; signature respelled: trailing byte after the DER value, (r,N-s)) - a repeated member must count once however its entries are spelled; a case is non-trivial when its list holds at least one entry that must not count (repeat, collector, non-member, other id, invalid, mismatch); counted over the CheckProposal seam on the history-free instance. HISTORY dimension: every case is judged by long-lived instances (fixed deal of the multisets to "+fmt.Sprint(shards)+" shards, one instance per shard, validator-set size and history, never reset between cases) that were first shown honest traffic through the same seams: none / each single step / all steps of {every member's vote for the other id - the very entries the cases re-use as Vi:otherid -, the honest certificate for the other id, every member's vote and the honest certificate for the certified id, votes of former members X and V(n+1) under the wider earlier validator set}; the history-free instance is shown every list twice in a row (validator sets up to the single-step bound; CheckVote: all). Judged on every instance: accepted => quorum of distinct valid member signatures (absolute), and compared with the history-free verdict (differential, counted). A below-quorum acceptance that a blank instance does not show is re-run on fresh instances to find the smallest past that reproduces it (history alone, second presentation, one earlier certificate, all earlier certificates of the shard)")
-	rep.Set("bounds", fmt.Sprintf("n=1..%d, list size <= min(n+1,%d); histories none+all n<=%d, single steps and second presentation n<=%d; CalVotesThreshold 0<=input<=n<=10; CheckVote n=1..%d, all histories; tdpos/xpoa n=1..%d size<=n+1, history-free and after %v; repeats once per re-encoding for n<=%d (tdpos/xpoa n<=%d), once with rotating re-encodings for n<=%d (tdpos/xpoa: all larger n), identical and fresh copies only above", maxN, capSize, maxN, histSingleN, maxN, maxNBcs, bcsHistory, reencAllN, reencAllNBcs, reencOnceN))
+	rep.Set("rule", "cases = every multiset of signature entries of size <= min(n+1, cap) over the kinds {valid member Vi (i=2..n), collector V1, non-member X, member over another id, corrupted, empty, member address with another member's key, member address with X's key}, each in canonical and reversed order; the further copies of a repeated member in every spelling: identical copies, fresh signatures of the same member (the signer is randomised), and each re-encoding the crypto client accepts (public-key JSON respelled: white space, member order, member-name case, extra member, trailing newline, escaped string, duplicated member; signature respelled: trailing byte after the DER value, (r,N-s)) - a repeated member must count once however its entries are spelled; a case is non-trivial when its list holds at least one entry that must not count (repeat, collector, non-member, other id, invalid, mismatch); counted over the CheckProposal seam on the history-free instance. HISTORY dimension: every case is judged by long-lived instances (fixed deal of the multisets to "+fmt.Sprint(shards)+" shards, one instance per shard, validator-set size and history, never reset between cases) that were first shown honest traffic through the same seams: none / each single step / all steps of {every member's vote for the other id - the very entries the cases re-use as Vi:otherid -, the honest certificate for the other id, every member's vote and the honest certificate for the certified id, votes of former members X and V(n+1) under the wider earlier validator set}; the history-free instance is shown every list twice in a row (validator sets up to the single-step bound; CheckVote: all). Judged on every instance: accepted => quorum of distinct valid member signatures (absolute), and compared with the history-free verdict (differential, counted). A below-quorum acceptance that a blank instance does not show is re-run on fresh instances to find the smallest past that reproduces it (history alone, second presentation, one earlier certificate, all earlier certificates of the shard). VALIDATOR-SET CHANGE dimension (setchange_* keys): the real tdpos / xpoa CheckMinerMatch over a stub chain on which the validator set changes from OLD to NEW through the real kernel contract methods (xpoa editValidates; tdpos nominateCandidate + voteCandidate, the new set elected for term 2), their writes read back by the real schedule through per-block snapshots; every pair old = V1..Va, new = any subset of old followed by f fresh members (sizes 1.."+fmt.Sprint(chgMaxSet)+" each; tdpos |new| = |old|: same, grow, shrink, disjoint replace, overlap) x the view from which the new set is in force (the carrying view h, h-1, h+1) x every multiset of size <= "+fmt.Sprint(chgMaxSigners)+" of valid signatures over the certified id by the members of old + new + the outsider X x the view the certificate claims for the certified id (the true view h-1, or - multisets of size <= "+fmt.Sprint(chgMaxLieSigners)+" - h, h-2, h+1: the signed message is the id alone, the view an unauthenticated field); one long-lived instance per scenario; judged: accepted => a quorum of distinct signers are members of the set in force for the view of the CERTIFIED block (threshold from that set's size), and compared with a plain CheckProposal instance handed that set (differential, counted); per scenario the model's sets in force for the views h-1 and h are first cross-checked against the proposers CheckMinerMatch entitles in every slot")
+	rep.Set("bounds", fmt.Sprintf("n=1..%d, list size <= min(n+1,%d); histories none+all n<=%d, single steps and second presentation n<=%d; CalVotesThreshold 0<=input<=n<=10; CheckVote n=1..%d, all histories; tdpos/xpoa n=1..%d size<=n+1, history-free and after %v; repeats once per re-encoding for n<=%d (tdpos/xpoa n<=%d), once with rotating re-encodings for n<=%d (tdpos/xpoa: all larger n), identical and fresh copies only above; validator-set change: old and new sets of 1..%d members, signer multisets of size <= %d, new set in force from view h-1 / h / h+1, claimed view h-1 (true) or h / h-2 / h+1 (multisets of size <= %d)", maxN, capSize, maxN, histSingleN, maxN, maxNBcs, bcsHistory, reencAllN, reencAllNBcs, reencOnceN, chgMaxSet, chgMaxSigners, chgMaxLieSigners))
 	rep.Set("accepted_total", cnt.accepted+voteAcc+bcsAcc)
 	rep.Set("exhaustive", complete)
+	if chg.sample != nil {
+		rep.Sample(chg.sample)
+	}
 	if len(bcsSamples) > 0 {
 		rep.Sample(bcsSamples[0])
+	}
+	if len(sampleToks) > 2 {
+		sampleToks = sampleToks[:2]
 	}
 	for _, toks := range sampleToks {
 		acc, t := evalProposal(r0, 4, mustEntries(toks))
@@ -975,11 +1025,13 @@ func run(tier core.Tier) *core.Report {
 	rep.Assume("a certificate does not name its collector; the sender of the proposal / proposer of the block (V1) may carry a certificate another validator collected, so V1's own valid signature counts as one member signature (excluding it would refuse the honest fork case of TestSMR); judged: accepted => distinct valid member signatures >= n-floor((n-1)/3)-1")
 	rep.Assume("entries of one kind are interchangeable: invalid entries are attributed to the members Vn, Vn-1, ... in turn; lists are tried in canonical and reversed order, not in every permutation")
 	rep.Assume("tdpos / xpoa run over a stub LedgerRely, network and kernel registry (two stored blocks, initial validator set), block at height 2 wrapped by the real state.BlockAgent")
+	rep.Assume("validator-set change: the set in force for a view is the chain's own rule - xpoa: the set written by block c is in force from view c+4 on (the schedule reads the snapshot of block view-4), tdpos: the initial proposers serve the term that holds the start height, the top-K elected from the nominations and votes serve from the first block of the next term on; the rule is not taken on trust: for the views h-1 and h of every scenario the proposers the real CheckMinerMatch entitles slot by slot must be the model's set (harness error otherwise). The stub chain stores block headers and the key/value writes of the kernel-contract calls per block; TargetBits (rollback target) stays 0")
 	rep.Assume("binding of the certificate to the block's parent (justify id vs PreHash) is outside this statement and not judged here")
 	rep.Assume("histories consist of CheckVote / CheckProposal (CheckMinerMatch) calls only; VoteProposal / UpdatePreferredRound, which legitimately raise the view floors of an instance, are not part of a history")
 	rep.Assume("a verdict that differs from the history-free one without breaking the threshold bound (e.g. a list with a quorum and one invalid entry) is counted, not reported: the statement bounds acceptance only")
-	fmt.Printf("C14 %s: threshold pairs=%d; CheckProposal cases=%d accepted=%d rejected=%d (rejected with quorum present=%d); CheckVote cases=%d accepted=%d; tdpos/xpoa cases=%d accepted=%d; on instances with a past: %d evaluations, verdict differs from the history-free one in %d\n",
-		tier, thr, cnt.evals, cnt.accepted, cnt.rejected, cnt.rejectedAbove, voteEvals, voteAcc, bcsEvals, bcsAcc, histEvals, hst.differsAccept+hst.differsRefuse+hst.againDiffers+vst.differsAccept+vst.differsRefuse+vst.againDiffers+bsum.differs)
+	fmt.Printf("C14 %s: threshold pairs=%d; CheckProposal cases=%d accepted=%d rejected=%d (rejected with quorum present=%d); CheckVote cases=%d accepted=%d; tdpos/xpoa cases=%d accepted=%d; on instances with a past: %d evaluations, verdict differs from the history-free one in %d; across a validator-set change: scenarios=%d cases=%d accepted=%d, with another claimed view cases=%d accepted=%d\n",
+		tier, thr, cnt.evals, cnt.accepted, cnt.rejected, cnt.rejectedAbove, voteEvals, voteAcc, bcsEvals, bcsAcc, histEvals, hst.differsAccept+hst.differsRefuse+hst.againDiffers+vst.differsAccept+vst.differsRefuse+vst.againDiffers+bsum.differs,
+		chg.scenarios, chg.evals, chg.accepted, chg.lieEvals, chg.lieAccepted)
 	return rep
 }
 
@@ -1026,6 +1078,9 @@ func replay(raw json.RawMessage) (bool, string, error) {
 		got := newRules("V2").CalVotesThreshold(c.Input, c.N)
 		want := c.Input >= threshold(c.N)
 		return got != want, fmt.Sprintf("CalVotesThreshold(%d,%d)=%v formula=%v", c.Input, c.N, got, want), nil
+	}
+	if len(c.Old) > 0 || len(c.New) > 0 {
+		return replayChange(c)
 	}
 	if c.N < 1 || c.N > 10 {
 		return false, "", fmt.Errorf("n out of range")
